@@ -121,8 +121,17 @@ impl InputBytes {
             let start = p * size;
             let end = start + size;
             let player_byte_slice = &self.bytes[start..end];
-            let input: T::Input = bincode::deserialize(player_byte_slice)
+            let mut reader = std::io::Cursor::new(player_byte_slice);
+            let input: T::Input = bincode::deserialize_from(&mut reader)
                 .map_err(|e| format!("failed to deserialize input for player {p}: {e}"))?;
+            // bincode stops reading once the value is complete; leftover bytes mean the frame does
+            // not have the size of this session's input type
+            if reader.position() as usize != player_byte_slice.len() {
+                return Err(format!(
+                    "input for player {p} has {} trailing bytes",
+                    player_byte_slice.len() - reader.position() as usize
+                ));
+            }
             player_inputs.push(PlayerInput::new(self.frame, input));
         }
         Ok(player_inputs)
